@@ -1,7 +1,7 @@
-// K7 (C11, open): Unreal 2 `players: Enforce` does not make the query fail when the server never
+// D25 (C11, fixed by 7e5c870; first recorded as K7): Unreal 2 `players: Enforce` does not make the query fail when the server never
 // answers the players request - query_players swallows the receive error ("players are non
 // required") and the query returns Ok with an empty player list.
-// This test asserts the property (Enforce + silent section => Err) and FAILS on the current tree.
+// This test asserts the property (Enforce + silent section => Err) it failed before the fix and passes after it.
 use gamedig::protocols::types::{GatherToggle, TimeoutSettings};
 use gamedig::protocols::unreal2::{query, GatheringSettings};
 use std::net::UdpSocket;
